@@ -1,4 +1,4 @@
-import NA.Proofs.C04Addr
+import NA.Proofs.C04Policy
 /-!
 # C04 — NSX approve converges to the Netspoc-equivalent gateway policies
 (and the NSX theorems of C07 / C08 / C10, names prefixed `nsx_`)
@@ -35,6 +35,59 @@ example : groupCalls trivialDiff ⟨"g", "id", "t", ["1", "2"]⟩ ⟨"h", "id", 
     [.postAddrs "g" "id" false ["1", "2"], .postAddrs "g" "id" true ["2", "3"]] := by decide
 example : groupCalls trivialDiff ⟨"g", "id", "t", []⟩ ⟨"h", "id", "t", []⟩ = [] := by decide
 
-def obligations : List Lean.Name := [``nsx_group_equalize_converges, ``addrDiff_perm, ``validFrom_le]
+/-- Rules of one policy present on both sides (`diffRules`: unique names, `sortRules`, the
+group-insensitive `Equal`, any valid edit script, `adaptGroup` / `findGroupOnDevice` /
+`equalizeGroups`): from every state that satisfies the group invariant `GInv`, every emitted call
+(DELETE / PUT / PATCH of rules, PUT of groups, POST / PATCH of address expressions) is accepted
+by the strict manager, the invariant is kept, only this policy and the groups change, and
+afterwards the policy holds — up to the order of listing — exactly one rule per target rule,
+with the same attributes and service and with every group entry naming a group that carries the
+target group's address set. -/
+theorem nsx_rules_converge {ctx : Ctx} {G0 : List Group} (hc : CtxOK ctx G0)
+    (hdiff : ∀ n m eq, validScript n m eq (ctx.diff n m eq) = true)
+    (S : Store) (st : PSt) (pa pb p0 : Policy) (hinv : GInv ctx G0 S.groups st)
+    (hpol : findPolicy S.policies pa.id = some p0) (hp0 : p0.rules = pa.rules)
+    (haids : (rids pa.rules).Nodup) (hbids : (rids pb.rules).Nodup)
+    (haRefs : ∀ ra ∈ pa.rules, refsOk S ra = true ∧ AExt ctx ra)
+    (hbRefs : ∀ rb ∈ pb.rules, BRefs ctx S rb)
+    (habort : (diffRules ctx st pa pb).1.abort = none) :
+    ∃ S' L B bR, run S (diffRules ctx st pa pb).2 = some S' ∧
+      GInv ctx G0 S'.groups (diffRules ctx st pa pb).1 ∧ Mono st (diffRules ctx st pa pb).1 ∧
+      StepFrame pa.id S S' ∧
+      (∃ p', findPolicy S'.policies pa.id = some p' ∧ p'.rules.Perm L) ∧
+      Forall2 (RuleReal ctx (diffRules ctx st pa pb).1.nod) L B ∧ B.Perm bR ∧ Forall2 SameButId bR pb.rules :=
+  diffRules_spec hc hdiff S st pa pb p0 hinv hpol hp0 haids hbids haRefs hbRefs habort
+
+/-- A target policy the manager does not have (`createPolicy`). -/
+theorem nsx_create_policy_converges {ctx : Ctx} {G0 : List Group} (hc : CtxOK ctx G0) (S : Store) (st : PSt)
+    (pb : Policy) (hinv : GInv ctx G0 S.groups st) (hnew : hasPolicy S pb.id = false)
+    (hbids : (rids pb.rules).Nodup) (hbRefs : ∀ rb ∈ pb.rules, BRefs ctx S rb) :
+    ∃ S' L, run S (createPolicy ctx st pb).2 = some S' ∧
+      GInv ctx G0 S'.groups (createPolicy ctx st pb).1 ∧ Mono st (createPolicy ctx st pb).1 ∧
+      S'.services = S.services ∧ S'.policies = S.policies ++ [⟨pb.id, L⟩] ∧ GroupsLE S S' ∧
+      Forall2 (RuleReal ctx (createPolicy ctx st pb).1.nod) L pb.rules :=
+  createPolicy_spec hc S st pb hinv hnew hbids hbRefs
+
+/-- Unique names (`genUniqRuleNames` / `genUniqGroupNames` after the repair f4446e1): the new
+ids are pairwise distinct, differ from every device id, and each is an id of the target or was
+unused. -/
+theorem nsx_ids_unique (aIds ids out : List String) (h : renameIds aIds ids (aIds ++ ids) = some out)
+    (hn : ids.Nodup) :
+    out.length = ids.length ∧ out.Nodup ∧ (∀ x ∈ out, x ∉ aIds) ∧ (∀ x ∈ out, x ∈ ids ∨ x ∉ aIds ++ ids) :=
+  renameIds_spec aIds ids (aIds ++ ids) out h (fun _ hx => List.mem_append.mpr (Or.inl hx))
+    (fun _ hx => List.mem_append.mpr (Or.inr hx)) hn
+
+/-- The unrepaired `genUniq*Names` (new name checked against the device names only) is refuted by
+device rule `x`, target rules `x` and `x-1`: both would be sent as `x-1`. -/
+def renameIdsOld (aIds : List String) (ids : List String) : List String :=
+  ids.map fun id => if aIds.contains id then (freshId aIds id).getD id else id
+
+theorem nsx_ids_unique_counterexample : ¬ (renameIdsOld ["x"] ["x", "x-1"]).Nodup := by decide
+
+example : renameIds ["x"] ["x", "x-1"] (["x"] ++ ["x", "x-1"]) = some ["x-2", "x-1"] := by decide
+
+def obligations : List Lean.Name := [``nsx_group_equalize_converges, ``nsx_rules_converge,
+  ``nsx_create_policy_converges, ``nsx_ids_unique, ``nsx_ids_unique_counterexample,
+  ``addrDiff_perm, ``stepItems_spec, ``walk_of_valid, ``adaptGroup_spec, ``equalize_spec]
 
 end NA.Nsx
